@@ -28,7 +28,9 @@ def mk(layout, maxlen=3, send=None, T=60, example=None, **extra):
     for key, v in extra.items():
         cid += '/%s-%s' % (key, v)
     # anchors: combining characters (a normalisation would change them), no-break and ideographic spaces
-    ex = example or {'q%d' % i: ['e\u0301te\u0301 \u212b', '\u3000(a)\u2003', '<c', ''][i % 4] for i in range(np_)}
+    exs = ['e\u0301te\u0301 \u212b', '\u3000(a)\u2003', '<c', '', '\U0001F600', '&lt;VT&gt;', 'R&D &amp; &copy &#233;', '\U0001F600 (x) \U00020000']
+    off = sum(map(ord, cid)) % len(exs)
+    ex = example or {'q%d' % i: exs[(off + i) % len(exs)] for i in range(np_)}
     return Cell(pid=PID, cid=cid, harness='h_access:script_cell', params=P, sym=sym, pre=pre,
                 stubs=(), timeout=T, cost=np_ * 10, example=ex)
 
@@ -44,6 +46,12 @@ def cells(tier):
                 ['ipi', 'o'], ['', 'p'], ['hpu'], ['gia', 'p'], ['bwp', 'ru'], ['uiphia', 'bn']):
         out.append(mk(lay, maxlen=L, T=T))
     out.append(mk(['p'], maxlen=L + 1, T=T))
+    # half-bracketed lines around the paragraph are ordinary lines, whatever comes between or after them; texts that
+    # spell entities / character references literally (e, E) are ordinary text too
+    for lay in (['hpr'], ['hapr'], ['HpR', 'ha'], ['Hap', 'R'], ['epE'], ['rph']):
+        out.append(mk(lay, maxlen=L, T=T))
+    out.append(mk(['hpr'], maxlen=L, send=0, T=T))
+    out.append(mk(['eipE', 'a'], maxlen=L, send=0, T=T))
     out.append(mk(['abwhugrn', 'nrguhwba'], maxlen=L, T=T))   # concrete only: order and concatenation
     for lay, send in ((['pi'], 0), (['ip', 'a'], 0), (['b', 'nipo'], 1), (['aib', 'u'], 0)):
         out.append(mk(lay, maxlen=L, send=send, T=T))
